@@ -142,9 +142,13 @@ def api_call(ex, st, args, ins, fn):
         st.ufapps.append((name, tuple(terms), elems))
         c = ex.new_cell(st, elems)
         return Slice(Ptr(c, ()), 0, n, n)
+    if short == 'verifThorough':
+        return ex.opts.get('tier') == 'thorough'
     if short == 'verifCase':
         n = args[0]
-        return ex.choose(st, [True] * n, maporder=True)
+        k = ex.choose(st, [True] * n, maporder=True)
+        st.nondets.append(('case', k))
+        return k
     raise Unsupported('unknown verif API ' + short)
 
 
